@@ -63,6 +63,18 @@ func (a *AggOb) vacuousParts() int {
 	return n
 }
 
+// deadSuccessParts: post-conditions generated at a return that reports success (error result nil) and that no
+// execution reaches under the contracts in force — never a dead error branch, always contradictory contracts.
+func (a *AggOb) deadSuccessParts() int {
+	n := 0
+	for _, p := range a.Parts {
+		if p.Reach == "unsat" && p.Success && strings.HasPrefix(p.Label, "post:") {
+			n++
+		}
+	}
+	return n
+}
+
 var reRet = regexp.MustCompile(`@ret\d+`)
 
 func aggName(n string) string { return reRet.ReplaceAllString(n, "") }
@@ -415,6 +427,10 @@ func cmdCheck(args []string) int {
 			continue
 		}
 		total++
+		if a.deadSuccessParts() > 0 {
+			report(a.Name, fmt.Sprintf("a success return is unreachable under the contracts in force (%d path(s)): the contracts of this function and its callees contradict each other", a.deadSuccessParts()), a)
+			continue
+		}
 		if a.Status == "proved" && a.vacuousParts() > spec.Vacuous[a.Name] {
 			// reachability (cover) check: an obligation that was reachable when the expectation list was written and is
 			// discharged now only because no execution reaches it any more is not a proof
@@ -528,6 +544,7 @@ func writeEvidence(cr *checkRun, tier string, seed int, total, discharged, viola
 	sort.Strings(unk)
 	assumptions := append([]string{}, cr.assumes...)
 	assumptions = append(assumptions, "machine integers are modelled exactly (mathematical Int with explicit wrap-around); stream offsets assumed < 2^62")
+	assumptions = append(assumptions, "frames: callers havoc exactly what a callee's `modifies` names; that a callee body changes nothing else is not proved in general (the experimental obligation GCV_FRAME=1 is too noisy through unknown callees and re-established reader invariants) — guarded by the rule that no success return may be unreachable under the contracts in force, and by a lint over the contract files (DESIGN.md §10)")
 	assumptions = append(assumptions, siteAssumes...)
 	assumptions = append(assumptions, unk...)
 	for _, n := range cr.spec.Notes {
